@@ -83,9 +83,14 @@ func (in *Interp) lazyNil(lv *LazyVal) bool {
 // concrete interface value when the document holds a T there.
 func (in *Interp) lazyAs(lv *LazyVal, T types.Type) Iface {
 	if lv.resolved {
+		if lv.val.t == nil {
+			in.lazyMismatches++
+		}
 		return lv.val
 	}
 	if in.lazyNil(lv) {
+		// a type assertion on a null document value fails
+		in.lazyMismatches++
 		return lv.val
 	}
 	for _, nt := range lv.notTypes {
@@ -105,6 +110,7 @@ func (in *Interp) lazyAs(lv *LazyVal, T types.Type) Iface {
 		return lv.val
 	}
 	lv.notTypes = append(lv.notTypes, T)
+	in.lazyMismatches++
 	return Iface{t: lazyOtherType, v: lv}
 }
 
